@@ -353,6 +353,7 @@ theorem step_nodes_inv (s : State) (op : Op) (h : LInvS s) (y : Res State) (e : 
     simp only [Option.some.injEq] at this
     rw [← this]; exact linvS_setA s v _ h
   | aresize v n x => exact liftA_inv s v _ h y (ite_some e)
+  | aresized v n => exact liftA_inv s v _ h y (ite_some e)
   | aappend v x => exact liftA_inv s v _ h y (ite_some e)
   | aappenda v => exact liftA_inv s v _ h y (ite_some e)
   | aappendn v xs => exact liftA_inv s v _ h y (ite_some e)
